@@ -26,8 +26,27 @@ import numpy as np
 from harness import core
 
 SPEC_DIR = os.path.join(core.SPECS, "msm")
-INVS = ["RowStochastic", "NormalizeIsCountsOverRowsum", "PriorFirst", "PiIsDistribution", "Stationary",
+INVS = ["RowStochastic", "NormalizeIsCountsOverRowsum", "PriorFirst", "SymmetricModel", "PiIsDistribution", "Stationary",
         "PiDivisible", "DetailedBalance", "ContainerRule", "Safe"]
+# matrices of pseudocounts (prior_counts as an array): forward-only, row-wise, symmetric but not constant
+PRIOR_MATS = {2: [[[0, 1], [0, 0]], [[1, 2], [0, 1]], [[0, 2], [2, 0]]],
+              3: [[[0, 1, 0], [0, 0, 1], [0, 0, 0]], [[1, 1, 1], [0, 0, 0], [2, 2, 2]], [[0, 1, 0], [1, 0, 2], [0, 2, 0]]]}
+# magnitudes: metastable pairs with 2^28 self-counts and a handful of crossings in unequal numbers (the largest size at
+# which every quantity of Builders.tla stays below 2^31)
+EXTRA_C = {2: [[[2 ** 28, 3], [1, 2 ** 28]], [[2 ** 28, 1], [3, 2 ** 27]]], 3: []}
+STIFF = 2 ** 24          # from here on: no float32 container (the counts are not representable), pi compared at 1e-6
+
+
+def _tla_fn_matrix(a):
+    return "<<" + ", ".join("<<" + ", ".join(str(int(x)) for x in row) + ">>" for row in a) + ">>"
+
+
+def mc_builders(d, name, n):
+    with open(os.path.join(d, name + ".tla"), "w") as fh:
+        fh.write("---- MODULE %s ----\nEXTENDS Builders\nMCExtraC == {%s}\nMCPriorMats == {%s}\n====\n"
+                 % (name, ", ".join(_tla_fn_matrix(a) for a in EXTRA_C[n]),
+                    ", ".join(_tla_fn_matrix(a) for a in PRIOR_MATS[n])))
+    return name
 FORMATS = ["csr", "csc", "coo", "lil", "dok", "dia", "bsr", "coodup"]
 
 SCOPES = {"quick": [dict(N=2, MaxC=3), dict(N=3, MaxC=1)],
@@ -99,6 +118,7 @@ def replay_case(arg):
     pi = np.array([p[0] / p[1] for p in c["pi"]]) if c["pi"][0][1] > 0 else None
     check_pi = pi is not None and (c["builder"] == "transpose" or c["sc"])
     prior = None if c["prior"] == 0 else c["prior"]
+    stiff = int(np.max(c["C"])) >= STIFF
     fn = getattr(builders, c["builder"])
     # element type of the caller's matrix: every type for the two containers whose conversions can hand back the
     # caller's own object (ndarray, csr), the default plus one rotating type elsewhere
@@ -106,6 +126,8 @@ def replay_case(arg):
     for ci, cont in enumerate(containers):
         dts = DTYPES if cont in ("ndarray", "csr") else ["int64", DTYPES[1 + (ci + len(c["C"]) + c["prior"]) % 3]]
         for di, dt in enumerate(dts):
+            if stiff and (dt == "float32" or cont == "coodup"):      # (one stored entry per count: 2^28 of them)
+                continue
             for flag in ((True, False) if dt == "int64" else ((di + ci) % 2 == 0,)):
                 combos.append((cont, dt, flag))
     # fractional prior: every builder is invariant under a common scaling of counts and prior (T and pi depend on
@@ -122,6 +144,9 @@ def replay_case(arg):
                 dt = dt[:-5]
             M = make(cont, (Ceven // 2).tolist() if halfprior else c["C"], dt)
             Wexp, pr = (W / 2, 0.5) if halfprior else (W, prior)
+            if c["prior"] == 2:          # a matrix of pseudocounts, in an integer or a floating-point array
+                pr = np.array(c["P"], dtype=("int64", "float64")[(len(combos) + len(bad) + len(cont)) % 2])
+                pr0 = pr.copy()
             before = dense(M).copy()
             btype = type(M)
             rtol = 1e-12 if dt != "float32" else 3e-6
@@ -135,6 +160,10 @@ def replay_case(arg):
                             {"container": cont, "flag": flag, "error": "%s: %s" % (type(ex).__name__, ex)}))
                 continue
             where = {"container": cont, "dtype": dt, "calculate_eq_probs": flag}
+            if c["prior"] == 2:
+                where["prior_counts"] = "%s array %s" % (pr.dtype, c["P"])
+                if not np.array_equal(pr, pr0):
+                    bad.append((c["builder"] + "/caller-modified", dict(where, prior_now=pr.tolist())))
             if halfprior:
                 where["prior_counts"] = 0.5
                 where["C"] = (Ceven // 2).tolist()
@@ -142,7 +171,7 @@ def replay_case(arg):
             if type(M) is not btype or M.dtype != np.dtype(dt) or not np.array_equal(dense(M), before):
                 bad.append((c["builder"] + "/caller-modified", dict(where, now=dense(M).tolist())))
             # containers
-            allowed = {btype} if pr is None or cont == "ndarray" else {btype, np.ndarray}
+            allowed = {btype} if pr is None or cont == "ndarray" else {np.ndarray} if c["prior"] == 2 else {btype, np.ndarray}
             if type(Tout) not in allowed or type(Cout) not in allowed:
                 bad.append((c["builder"] + "/container", dict(where, got=[type(Cout).__name__, type(Tout).__name__],
                                                               allowed=[t.__name__ for t in allowed])))
@@ -158,7 +187,7 @@ def replay_case(arg):
                 e = np.asarray(eq)
                 if e.shape != (n,):
                     bad.append((c["builder"] + "/eq-shape", dict(where, got=str(e.shape))))
-                elif check_pi and not np.allclose(e, pi, rtol=max(1e-9, rtol * 10), atol=1e-12):
+                elif check_pi and not np.allclose(e, pi, rtol=1e-6 if stiff else max(1e-9, rtol * 10), atol=1e-12):
                     bad.append((c["builder"] + "/eq-probs", dict(where, got=e.tolist(), expected=pi.tolist())))
     return bad
 
@@ -428,12 +457,14 @@ def run(ctx):
     jobs = []
     for i, sc in enumerate(SCOPES[ctx.tier]):
         k = {a: str(v) for a, v in sc.items()}
+        k.update(ExtraC="<- MCExtraC", PriorMats="<- MCPriorMats")
+        mod = mc_builders(d, "MC_Builders%d" % i, sc["N"])
         cfg = core.write_cfg(os.path.join(d, "b%d.cfg" % i), constants=dict(k, Emit="FALSE"),
                              invariants=INVS, properties=["CallerUnchanged"])
-        jobs.append(dict(module="Builders", cfg=os.path.basename(cfg), cwd=d, label="exhaustive %s" % sc,
+        jobs.append(dict(module=mod, cfg=os.path.basename(cfg), cwd=d, label="exhaustive %s" % sc,
                          coverage=True, workers=6))
         cfg = core.write_cfg(os.path.join(d, "e%d.cfg" % i), constants=dict(k, Emit="TRUE"), invariants=["EmitInv"])
-        jobs.append(dict(module="Builders", cfg=os.path.basename(cfg), cwd=d, label="emit %s" % sc, workers=1))
+        jobs.append(dict(module=mod, cfg=os.path.basename(cfg), cwd=d, label="emit %s" % sc, workers=1))
     ljobs, lemit = large_jobs(ctx, d)
     lres = ctx.tlc_parallel(ljobs + jobs)         # the long-running jobs first
     res = lres[len(ljobs):]
@@ -443,7 +474,7 @@ def run(ctx):
         for t, p in res[2 * i + 1].prints:
             if t != "CASE":
                 continue
-            key = (str(p["C"]), p["builder"], p["prior"])
+            key = (str(p["C"]), p["builder"], p["prior"], str(p["P"]) if p["prior"] == 2 else "")
             if key in seen:        # the tag dimension of the model duplicates values
                 continue
             seen.add(key)
@@ -462,7 +493,7 @@ def run(ctx):
         for (c, conts), bad in zip(args, out):
             C = np.array(c["C"])
             nontriv = c["sc"] and not np.array_equal(C, C.T)
-            ctx.case((str(c["C"]), c["builder"], c["prior"]) if nontriv else None,
+            ctx.case((str(c["C"]), c["builder"], c["prior"], str(c["P"]) if c["prior"] == 2 else "") if nontriv else None,
                      sample=c if nontriv else None)
             ctx.traces += 1
             for key, detail in bad:
